@@ -1922,6 +1922,9 @@ class Group(Element):
     def _get_children(self, trailing=False):
         if Validator.is_strict(self.validation_level):
             children = self.children.get_ordered_children()
+            # accepted children the structure does not list (Z segments) follow, in insertion order
+            known = set(self.ordered_children or ())
+            children.extend(c for c in self.children.get_children() if c[0].name not in known)
         else:
             children = self.children.get_children()
         if not trailing:
